@@ -29,9 +29,29 @@ def entry_points(ctx):
     fx = ctx.fx
     op_impls = [im for im in fx.impls_of("ops::temp::Operation") if im["self_ty"].get("k") == "adt"]
     handle_adts = set(range_handles(ctx)) | {im["self_ty"]["path"] for im in op_impls}
+    # closures that are expanded in place (handed to a function of this crate or to a core combinator that just calls them) are judged in their
+    # caller's graph, with the caller's facts; only closures that escape (coerced to a function pointer, handed to an iterator adaptor, stored) are
+    # entry points of their own
+    from ..graph import CLOSURE_COMBINATORS
+    expanded = set()
+    for g in fx.fn_list:
+        for b in g.get("blocks", []):
+            tm = b["term"]
+            if tm["k"] != "call" or "indirect" in tm["callee"]:
+                continue
+            c = tm["callee"]
+            if not (c.get("local_crate") or c["path"] in CLOSURE_COMBINATORS):
+                continue
+            for a in c.get("generic_args", []):
+                if a.get("k") == "closure":
+                    expanded.add(a["path"])
+                elif a.get("k") == "ref" and a.get("to", {}).get("k") == "closure":
+                    expanded.add(a["to"]["path"])
     out = []
     for f in fx.fn_list:
         if f.get("kind") not in ("Fn", "AssocFn", "Closure") or fx.fn(f["path"]) is not f:
+            continue
+        if f.get("kind") == "Closure" and f["path"] in expanded:
             continue
         path = f["path"]
         st = f.get("impl_self_ty", {})
